@@ -96,6 +96,7 @@ func FileUtilsFlush(path string, offset int64, data []byte) (int64, error) {
 		return -1, err
 	}
 
+	verifCrashWrite("write", path, file, data)
 	n, err := file.Write(data)
 	if err != nil {
 		return -1, err
@@ -109,6 +110,7 @@ func FileUtilsFlush(path string, offset int64, data []byte) (int64, error) {
 	if err != nil {
 		return -1, err
 	}
+	verifCrashSynced(path)
 
 	return int64(n), nil
 }
